@@ -492,7 +492,7 @@ static void do_call(char **tok, int ntok) {
     {
         struct timespec ts;
         clock_gettime(CLOCK_REALTIME, &ts);
-        eb_printf("\"now\":%ld.%06ld,", (long) ts.tv_sec, ts.tv_nsec / 1000);
+        eb_printf("\"now\":%ld.%06ld,\"now_s\":%ld,", (long) ts.tv_sec, ts.tv_nsec / 1000, (long) ts.tv_sec);
     }
     eb_printf("\"argc\":%zu}\n", vec_len(argv));
     eb_flush();
@@ -512,7 +512,7 @@ static void do_call(char **tok, int ntok) {
     {
         struct timespec ts;
         clock_gettime(CLOCK_REALTIME, &ts);
-        eb_printf("\"now\":%ld.%06ld,", (long) ts.tv_sec, ts.tv_nsec / 1000);
+        eb_printf("\"now\":%ld.%06ld,\"now_s\":%ld,", (long) ts.tv_sec, ts.tv_nsec / 1000, (long) ts.tv_sec);
     }
     eb_printf("\"done\":1}\n");
     eb_flush();
@@ -652,7 +652,7 @@ static void do_oracle(long id) {
     }
     struct timespec ts;
     clock_gettime(CLOCK_REALTIME, &ts);
-    eb_printf("\"now\":%ld.%06ld}\n", (long) ts.tv_sec, ts.tv_nsec / 1000);
+    eb_printf("\"now_s\":%ld,\"now\":%ld.%06ld}\n", (long) ts.tv_sec, (long) ts.tv_sec, ts.tv_nsec / 1000);
     eb_flush();
 }
 
